@@ -532,3 +532,27 @@ def cross_check(files, limit=60, timeout=20):
     for d in {os.path.dirname(p) for p, _ in files}:
         shutil.rmtree(d, ignore_errors=True)
     return out
+
+
+# --------------------------------------------------------------------------
+# second engine on leaf kernels (CrossHair); recorded only, never decides a property
+# --------------------------------------------------------------------------
+def crosshair_kernels(files, per_condition_timeout=90):
+    import subprocess
+    deps = os.path.join(VERIF, '.deps_crosshair')
+    if not os.path.isdir(os.path.join(deps, 'crosshair')):
+        return {'status': 'crosshair not installed (setup.sh installs it from the offline wheelhouse)'}
+    out = {}
+    env = dict(os.environ, PYTHONPATH=deps + os.pathsep + loader.REPO, PBR_VERSION='0.0.0')
+    for f in files:
+        path = os.path.join(VERIF, 'vf', 'crosshair_kernels', f)
+        try:
+            p = subprocess.run([sys.executable, '-m', 'crosshair', 'check', '--report_all',
+                                '--per_condition_timeout', str(per_condition_timeout), path],
+                               stdout=subprocess.PIPE, stderr=subprocess.STDOUT, text=True, env=env, cwd=VERIF, timeout=1200)
+            lines = [l.split(': ', 2)[-1] for l in p.stdout.splitlines() if path in l]
+            out[f] = {'confirmed_over_all_paths': sum('Confirmed over all paths' in l for l in lines),
+                      'other': [l for l in lines if 'Confirmed over all paths' not in l][:5]}
+        except (subprocess.TimeoutExpired, OSError) as exc:
+            out[f] = {'error': repr(exc)}
+    return out
